@@ -1,7 +1,7 @@
 (* C14 -- property theorems only.  Each is closed by [exact] of a lemma from Proofs.v. *)
 From Coq Require Import List Bool Arith ZArith PrimFloat.
 Import ListNotations.
-Require Import NV.C14.Model NV.C14.Gen_tables NV.C14.Proofs.
+Require Import NV.C14.Model NV.C14.Gen_tables NV.C14.Proofs NV.C14.ProofsIE.
 
 (* All five iteration controllers, no arithmetic laws (valid for IEEE doubles), every parameter
    setting with convergence_level >= 1, every sequence of observed energies: a check call that
@@ -192,3 +192,44 @@ Example C14_nonvacuous :
     cg_with_controller float_arith fv_add fv_sub fv_scale fv_smul opA (Some [2%float; 4%float]) None vdot
                        n2 n2 (fun _ => 0%float) P 20 10 e0 = (e', CONVERGED, ExCheck, n).
 Proof. cbv zeta. eexists; eexists. vm_compute. reflexivity. Qed.
+
+(* Numerical branch of InversionEnabler.apply (x0 = 0, QuadraticEnergy(x0, invop, x), CG with the default
+   nreset, `return r.position` whatever the status): for every LINEAR invop (same three laws as in
+   C14_residual_invariant), every preconditioner, controller, right-hand side x and fuel, the returned field y is
+   the position of the final CG energy r, and the gradient stored in r -- the one the controller judged --
+   is the residual  invop(y) - x  of the linear system the inversion is to solve; its value is
+   1/2 y.invop(y) - x.y.  Together with C14_converged_means_criterion: no warning => the criterion was met
+   (or gamma == 0 / limit) on the true residual of the returned solution. *)
+Theorem C14_inversion_solve_residual :
+  forall (T : Type) (A : arith T) (V : Type) (vadd vsub : V -> V -> V) (vscale : V -> T -> V)
+         (smul : T -> V -> V) (vdot : V -> V -> T) (CS : Type)
+         (ctrl_start : qenergy T V -> CS * status) (ctrl_check : CS -> qenergy T V -> CS * status)
+         (zero : V) (invop : V -> V) (prec : option (V -> V)),
+    (forall u w, vadd (vsub u w) w = u) ->
+    (forall u v w, vsub (vsub u w) v = vsub (vsub u v) w) ->
+    (forall x d a, invop (vsub x (smul a d)) = vsub (invop x) (vscale (invop d) a)) ->
+    forall (x : V) (fuel : nat) (y : V) (r : qenergy T V) (warn : bool),
+      ie_solve A vadd vsub vscale smul vdot ctrl_start ctrl_check zero invop prec x fuel = (y, r, warn) ->
+      y = q_pos r /\ q_grad r = vsub (invop y) x /\
+      q_value r = a_sub A (a_mul A (a_half A) (vdot y (invop y))) (vdot x y).
+Proof. exact ie_solve_residual. Qed.
+
+(* The start energy of that branch (no laws): position x0 = 0, gradient invop(0) - x. *)
+Theorem C14_inversion_start_energy :
+  forall (T : Type) (A : arith T) (V : Type) (vadd vsub : V -> V -> V) (vdot : V -> V -> T) (zero : V)
+         (invop : V -> V) (x : V),
+    q_pos (ie_energy0 A vadd vsub vdot zero invop x) = zero /\
+    q_grad (ie_energy0 A vadd vsub vdot zero invop x) = vsub (invop zero) x.
+Proof. exact ie_energy0_shape. Qed.
+
+(* If the controller does not answer CONTINUE at start, the inversion returns x0 = 0, with a warning
+   exactly when the answer was not CONVERGED. *)
+Theorem C14_inversion_stopped_at_start :
+  forall (T : Type) (A : arith T) (V : Type) (vadd vsub : V -> V -> V) (vscale : V -> T -> V)
+         (smul : T -> V -> V) (vdot : V -> V -> T) (CS : Type)
+         (ctrl_start : qenergy T V -> CS * status) (ctrl_check : CS -> qenergy T V -> CS * status)
+         (zero : V) (invop : V -> V) (prec : option (V -> V)) (x : V) (fuel : nat) (cs : CS) (st : status),
+    ctrl_start (ie_energy0 A vadd vsub vdot zero invop x) = (cs, st) -> st <> CONTINUE ->
+    ie_solve A vadd vsub vscale smul vdot ctrl_start ctrl_check zero invop prec x fuel
+    = (zero, ie_energy0 A vadd vsub vdot zero invop x, negb (status_eqb st CONVERGED)).
+Proof. exact ie_solve_start_stop. Qed.
